@@ -59,6 +59,9 @@ struct Inner {
     sent: u64,
     dropped: u64,
     delivered: u64,
+    /// rate-limited path-activity log: (src, dst, lost) -> last time reported
+    path_reported: HashMap<(SocketAddr, SocketAddr, bool), u64>,
+    path_logger: Option<Arc<dyn Fn(SocketAddr, SocketAddr, bool) + Send + Sync>>,
 }
 
 pub struct Fabric {
@@ -87,6 +90,8 @@ impl Fabric {
                 sent: 0,
                 dropped: 0,
                 delivered: 0,
+                path_reported: HashMap::new(),
+                path_logger: None,
             }),
         })
     }
@@ -108,6 +113,11 @@ impl Fabric {
             .sockets
             .insert(addr, Arc::downgrade(&socket));
         socket
+    }
+
+    /// Report datagram activity per ordered address pair (at most once per 200 ms).
+    pub fn set_path_logger(&self, f: Arc<dyn Fn(SocketAddr, SocketAddr, bool) + Send + Sync>) {
+        self.inner.lock().unwrap().path_logger = Some(f);
     }
 
     pub fn set_policy(&self, policy: Policy) {
@@ -211,6 +221,35 @@ impl Fabric {
             let lost = scripted
                 || inner.blocked.contains(&(src, dst))
                 || (policy.loss > 0.0 && inner.rng.gen_bool(policy.loss));
+            if std::env::var_os("VERIF_PKTLOG").is_some() {
+                eprintln!(
+                    "pkt t={} {}->{} len={} b0={:02x} {}",
+                    inner.epoch.elapsed().as_millis(),
+                    src.port(),
+                    dst.port(),
+                    datagram.len(),
+                    datagram[0],
+                    if lost { "LOST" } else { "ok" }
+                );
+            }
+            let mut report = None;
+            if let Some(logger) = inner.path_logger.clone() {
+                let t = inner.epoch.elapsed().as_millis() as u64;
+                let due = inner
+                    .path_reported
+                    .get(&(src, dst, lost))
+                    .map(|last| t >= last + 200)
+                    .unwrap_or(true);
+                if due {
+                    inner.path_reported.insert((src, dst, lost), t);
+                    report = Some(logger);
+                }
+            }
+            if let Some(logger) = report {
+                drop(inner);
+                logger(src, dst, lost);
+                inner = self.inner.lock().unwrap();
+            }
             if lost {
                 inner.dropped += 1;
                 return;
